@@ -966,10 +966,88 @@ def kf_overwrite_swallows_integrity_error(check_name, desc, viol):
 
 
 # ---------------------------------------------------------------------------------------------------------------------
+# ---------------------------------------------------------------------------------------------------------------------
+# process death during a transaction larger than the page cache of the storage layer
+def strat_large():
+    return st.builds(lambda n, kind, extra, prior_iso: {"n": n, "kind": kind, "extra": extra, "prior_iso": prior_iso},
+                     st.sampled_from([70000, 120000]), st.sampled_from(["exit_before_commit", "exit_last_statement"]),
+                     st.booleans(), st.booleans())
+
+
+def check_large_kill(desc, ctx):
+    """An upload whose rows do not fit the page cache of the storage layer (sqlite spills dirty pages into the file
+    before commit) is killed by os._exit in a forked child: the file must hold the pre-image for the next process,
+    everything stored before stays retrievable, and the upload can be repeated."""
+    with F.scratch_dir() as root:
+        _large_kill_in(root, desc, ctx)
+
+
+def _large_kill_in(root, desc, ctx):
+    import numpy as np
+    path = root + "/large.db"
+    K.reset_registries()
+    F.write_db(path, F.template_bytes())
+    kw = dict(UNITS, material="big-mat", adsorbate="nitrogen", temperature=77.0)
+    if desc["prior_iso"]:
+        small = pygaps.PointIsotherm(pressure=[0.1, 0.2, 0.3], loading=[1.0, 2.0, 2.5], **dict(kw, material="small-mat"))
+        pgsql.isotherm_to_db(small, db_path=path, verbose=False)
+    pre_bytes = F.read_db(path)
+    pre_img, _ = F.image(path)
+    pre_sum = summary(path, False)
+    n = desc["n"]
+
+    def big():
+        import pandas as pd
+        data = {"pressure": np.linspace(1e-3, 1.0, n), "loading": np.linspace(0.0, 9.0, n)}
+        if desc["extra"]:
+            data["enthalpy"] = np.linspace(30.0, 5.0, n)
+        return pygaps.PointIsotherm(isotherm_data=pd.DataFrame(data), pressure_key="pressure", loading_key="loading",
+                                    branch="ads", **kw)
+
+    def call():
+        pgsql.isotherm_to_db(big(), db_path=path, verbose=False)
+
+    # number of statements of the operation (pass-through run on a copy of the file)
+    with F.installed(None, None) as plan:
+        call()
+    n_stmt = plan.n
+    post_img, _ = F.image(path)
+    F.write_db(path, pre_bytes)
+    K.reset_registries()
+    where = f"isotherm_to_db of a {n}-point isotherm ({'with' if desc['extra'] else 'without'} extra column), killed at {desc['kind']}"
+    if desc["kind"] == "exit_before_commit":
+        code = F.run_killed(call, "exit_before_commit", 0)
+    else:
+        code = F.run_killed(call, "exit_after", n_stmt - 1)
+    if code != F.EXIT_PLANNED:
+        raise HarnessError(f"{where}: forked child ended with {code} instead of dying at the planned instant")
+    img, problems = F.image(path, [pre_img, post_img])
+    if img != pre_img:
+        raise Violation(f"{where}: the next process finds neither nothing nor everything of the upload: vs pre-image "
+                        f"{F.diff_images(pre_img, img)[:600]}", tag="not_atomic_killed_large")
+    if problems:
+        raise Violation(f"{where}: {problems}", tag="integrity")
+    K.reset_registries()
+    now = summary(path, False)
+    check_retrievable(pre_sum, now, {"materials": set(), "adsorbates": set(), "isotherms": set(), "types": set()}, where)
+    again, err = _call(call)
+    if again != "ok":
+        raise Violation(f"{where}: repeating the upload in a new process state is refused: {err}", tag="repeat_refused_large")
+    img2, _ = F.image(path, [post_img])
+    if img2 != post_img:
+        raise Violation(f"{where}: the repeated upload does not produce the complete effect: {F.diff_images(post_img, img2)[:400]}",
+                        tag="repeat_incomplete_large")
+    ctx.label(f"n_{n}", desc["kind"], "statements_%d" % n_stmt)
+    ctx.nt([n, desc["kind"], desc["extra"], desc["prior_iso"]], desc)
+
+
 CHECKS = [
     Check("fault_enumeration", check_fault_enumeration, strategy=strat_scenario,
           budget={"quick": 64, "thorough": 600}, shrink=False, shrink_quick=False, exhaustive=True,
           rule="per scenario all 5N+2 (position, kind) faults; all-or-nothing image, pragma checks, readers, repeat"),
+    Check("large_transaction_kill", check_large_kill, strategy=strat_large, budget={"quick": 8, "thorough": 48},
+          shrink=False, shrink_quick=False,
+          rule="uploads of 70 000 / 120 000 points (beyond the 2 MB page cache) killed before commit / after the last statement"),
     Check("natural_rejection", check_natural_rejection, strategy=strat_natural,
           budget={"quick": 400, "thorough": 6000}, shrink_quick=False,
           rule="operations the store itself rejects at a later statement (NULL / unsupported value, unknown property "
